@@ -32,8 +32,8 @@ RULE = ("cases = (component, datafit, penalty, intercept, storage, weights class
         "converged; distinct = digest(case)")
 SLACK = {"alpha_max_rel": 1e-10, "null_model_grad": "tol"}
 ASSUMPTIONS = ["null model of quadratic losses by least squares on the unpenalised columns (+ intercept)"]
-FLOOR = {"quick": 200, "thorough": 3000}
-REPS = {"quick": 6, "thorough": 90}
+FLOOR = {"quick": 150, "thorough": 2000}
+REPS = {"quick": 10, "thorough": 120}
 
 TARGETS = ["AndersonCD/Quadratic/L1", "AndersonCD/Quadratic/L1_plus_L2", "AndersonCD/Quadratic/WeightedL1",
            "AndersonCD/Quadratic/MCPenalty", "AndersonCD/Quadratic/WeightedMCPenalty", "AndersonCD/Logistic/L1",
